@@ -44,6 +44,8 @@ WRITE_PRIMS = {
     "shutil.move": 1, "shutil.copy": 1, "shutil.copyfile": 1, "shutil.copy2": 1, "shutil.copymode": 1,
     "shutil.copystat": 1, "shutil.rmtree": 0, "os.open": 0, "os.link": 1, "os.symlink": 1,
 }  # fmt: skip
+# … of which these never touch the file system and accept any str (no ValueError for an embedded null byte)
+PURE_STRING = {"os.path.join", "os.path.basename", "os.path.dirname", "os.fspath", "os.path.normpath", "isinstance", "len", "str", "repr"}
 PURE = {"os.path.join", "os.path.basename", "os.path.dirname", "os.fspath", "os.path.normpath", "isinstance",
         "os.path.realpath", "os.path.islink", "len", "str", "repr"}  # fmt: skip
 
@@ -194,13 +196,38 @@ def rule_r1_r2_r3(ctx):
                   "tensors are invalidated although their backing file may not have been replaced (failure before or "
                   "during os.replace leaves valid data unreadable)",
                   how="dominated by os.replace on every path incl. exceptional ones; not in a handler/finally")
-    # R3 cleanup
-    trys = [n for n in own_nodes(f.node) if isinstance(n, ast.Try) and any(x is rep for x in ast.walk(n))]
-    ctx.require(len(trys) == 1, "try block around os.replace not found")
+    # R3 cleanup: the try whose finally (or re-raising catch-all handler) removes the temp file and the temp directory
+    def _cleanup_calls(t: ast.Try):
+        blocks = [t.finalbody]
+        for h in t.handlers:
+            catch_all = h.type is None or (dotted_of(h.type) or "") in ("BaseException",)
+            if catch_all and any(isinstance(x, ast.Raise) and x.exc is None for x in ast.walk(h)):
+                blocks.append(h.body)
+        return [[dotted_of(c.func) for st in b for c in ast.walk(st) if isinstance(c, ast.Call)] for b in blocks if b]
+
+    def _protects(t: ast.Try):
+        return any(any(x in cs for x in ("os.remove", "os.unlink")) or any(x in cs for x in ("os.rmdir", "shutil.rmtree")) for cs in _cleanup_calls(t))
+
+    all_trys = [n for n in own_nodes(f.node) if isinstance(n, ast.Try)]
+    prot = [t for t in all_trys if _protects(t)]
+    critical = [("writer.write()", wr[0]), ("os.replace", rep)]
+    critical += [(norm(c.func), c) for c in calls_in(f) if dotted_of(c.func) in ("shutil.copymode", "shutil.copystat", "os.chmod")]
+    critical += [(norm(c.func) + "()", c) for c in calls_in(f) if isinstance(c.func, ast.Attribute) and c.func.attr == "release"]
+    for label, c in critical:
+        inside = any(any(x is c for st in t.body for x in ast.walk(st)) for t in prot)
+        ctx.check("R3", f"{label} runs inside the try that removes the temp file and directory", inside, f, c,
+                  f"{label} can raise after the temp directory (and the complete new data file) exists, but it is outside the try whose "
+                  "finally/handler removes them: a failure of this step leaves the temp directory and file behind",
+                  how="membership of the fallible step in the body of the cleanup try", construct=f"{label} outside the cleanup try")
+    trys = [t for t in prot if any(x is wr[0] for st in t.body for x in ast.walk(st))] or prot or all_trys
+    if not trys:
+        ctx.violation("R3", f, f.node, "no try statement protects the write of the new data file: nothing removes the temp file and directory on failure",
+                      construct="no cleanup try")
+        return
     tr = trys[0]
     in_body = any(x is wr[0] for s in tr.body for x in ast.walk(s)) and any(x is rep for s in tr.body for x in ast.walk(s))
     ctx.check("R3", "write and replace share one try body", in_body, f, tr, "write and replace are not in the same try body", nontrivial=False)
-    fin_calls = [dotted_of(c.func) for s in tr.finalbody for c in ast.walk(s) if isinstance(c, ast.Call)]
+    fin_calls = [x for cs in _cleanup_calls(tr) for x in cs]
     for prim, what in (("os.remove", "temp file"), ("os.rmdir", "temp directory")):
         alt = {"os.remove": ("os.remove", "os.unlink"), "os.rmdir": ("os.rmdir", "shutil.rmtree")}[prim]
         ok = any(x in fin_calls for x in alt)
@@ -208,7 +235,7 @@ def rule_r1_r2_r3(ctx):
                   f"the {what} is not removed in the finally of the write/replace try: it is left behind on failure",
                   how="call present in finalbody", construct=f"finally lacks {prim}")
     # each cleanup tolerates the other's absence: wrapped in suppress(FileNotFoundError) or try/except
-    naked = [s for s in tr.finalbody if isinstance(s, ast.Expr) and isinstance(s.value, ast.Call) and dotted_of(s.value.func) in WRITE_PRIMS]
+    naked = [s for s in (tr.finalbody or [st for h in tr.handlers for st in h.body]) if isinstance(s, ast.Expr) and isinstance(s.value, ast.Call) and dotted_of(s.value.func) in WRITE_PRIMS]
     ctx.check("R3", "cleanup steps cannot mask each other", not naked, f, tr,
               "a cleanup call can raise (e.g. temp file already moved) and skip the remaining cleanup", how="each in suppress()/try", nontrivial=False)
     # between mkdtemp and the try
@@ -220,11 +247,12 @@ def rule_r1_r2_r3(ctx):
     for s in body[i0 + 1 : i1]:
         for c in (x for x in ast.walk(s) if isinstance(x, ast.Call)):
             d = dotted_of(c.func) or norm(c.func)
-            ok = d in PURE or _catches_oserror(ctx, f, c)
-            ctx.check("R3", f"between mkdtemp and try: {d}() cannot raise OSError uncaught", ok, f, c,
-                      f"{d}() runs after the temp directory exists but outside the try/finally: an OSError here leaks "
-                      "the temp directory",
-                      how="pure-call table, or callee's file-system calls all inside try/except OSError")
+            ok = d in PURE_STRING
+            ctx.check("R3", f"between mkdtemp and try: {d}() cannot raise", ok, f, c,
+                      f"{d}() runs after the temp directory exists but outside the try/finally: an exception here (an OSError it does not catch, "
+                      "or a ValueError for a path with an embedded null byte) leaks the temp directory",
+                      how="only string manipulations of the pure-call table may stand between mkdtemp and the protecting try",
+                      construct=f"{d}() between mkdtemp and the cleanup try")
     # dir= of mkdtemp is the destination's directory (same file system, needed for atomic replace)
     dkw = next((k.value for k in mk[0].value.keywords if k.arg == "dir"), None)
     ok = dkw is not None and "D" in of(dkw)
